@@ -30,6 +30,29 @@ type Spec struct {
 	Params  []string // kinds of the Gallina parameters (receiver first), after struct flattening
 	Result  string
 	Structs map[string][]FieldSpec // struct type name -> exposed fields (any other field access is refused)
+
+	// second tier
+	Records map[string][]FieldSpec // struct type name -> the field paths that make up its tuple (slice elements, results)
+	Opaque  map[string]bool        // record type name -> add a last component N: the identity of everything else
+	TypeMap map[string]string      // type expression as written in the source -> kind name (types outside the module,
+	//                                byte strings that are only moved around, parameters that are not values)
+	Oracles map[string]OracleSpec // "<TypeName>.<Method>" of a parameter / field whose kind is "oracle"
+	Cut     *CutSpec
+}
+
+// OracleSpec: a method of an interface-typed parameter, read as a Gallina function parameter.
+// Args: one kind name per Go argument, "_" = the argument is dropped (context).  Result: "bool", "res bool", ...
+type OracleSpec struct {
+	Name   string
+	Args   []string
+	Result string
+}
+
+// CutSpec: translate only the statements of the body that precede the (single, top-level) statement calling
+// Before, and return the variable Yield there.  What follows the cut is not covered by the translation.
+type CutSpec struct {
+	Before string
+	Yield  string
 }
 
 // FieldSpec exposes one field of a struct parameter.  Kind "" = derive from the field's declared type;
@@ -78,6 +101,59 @@ var table = []Spec{
 	{File: "pkg/reader/rmn_home.go", Func: "IsNodeObserver", Name: "gen_is_node_observer",
 		Params: []string{"bigopt", "int", "int"}, Result: "res bool",
 		Structs: map[string][]FieldSpec{"SourceChain": {{"ObserverNodesBitmap", "bigopt"}}}},
+
+	// ---------------- second tier: loops over slices ----------------
+	{File: "commit/merkleroot/observation.go", Func: "msgsCoverRange", Name: "gen_msgs_cover_range",
+		Params: []string{"slice record:Message", "range"}, Result: "res unit",
+		Records: map[string][]FieldSpec{"Message": {{"Header.SequenceNumber", ""}}}},
+	{File: "commit/merkleroot/observation.go", Recv: "observerImpl", Func: "computeMerkleRoot", Name: "gen_compute_root_hashes",
+		Params: []string{"func", "slice record:Message"}, Result: "res slice ord",
+		Structs: map[string][]FieldSpec{"observerImpl": {{"lggr", ""}, {"msgHasher", ""}}},
+		Records: map[string][]FieldSpec{"Message": {{"Header.SequenceNumber", ""}}},
+		Opaque:  map[string]bool{"Message": true},
+		TypeMap: map[string]string{"logger.Logger": "ignore", "cciptypes.MessageHasher": "oracle",
+			"context.Context": "drop", "[32]byte": "ord", "cciptypes.Bytes32": "ord"},
+		Oracles: map[string]OracleSpec{"MessageHasher.Hash": {Name: "hash", Args: []string{"_", "record:Message"}, Result: "res ord"}},
+		Cut:     &CutSpec{Before: "merklemulti.NewTree", Yield: "hashes"}},
+
+	{File: "commit/merkleroot/validate_observation.go", Func: "validateObservedMerkleRoots", Name: "gen_validate_roots_chains",
+		Params: []string{"slice record:MerkleRootChain", "ord", "set u64"}, Result: "res unit",
+		Records: map[string][]FieldSpec{"MerkleRootChain": {{"ChainSel", ""}}},
+		TypeMap: map[string]string{"commontypes.OracleID": "ord"}},
+	{File: "commit/merkleroot/validate_observation.go", Func: "validateObservedOnRampMaxSeqNums", Name: "gen_validate_onramp_chains",
+		Params: []string{"slice record:SeqNumChain", "ord", "set u64"}, Result: "res unit",
+		Records: map[string][]FieldSpec{"SeqNumChain": {{"ChainSel", ""}}},
+		TypeMap: map[string]string{"commontypes.OracleID": "ord"}},
+	{File: "commit/merkleroot/validate_observation.go", Func: "validateObservedOffRampMaxSeqNums", Name: "gen_validate_offramp_chains",
+		Params: []string{"slice record:SeqNumChain", "ord", "bool"}, Result: "res unit",
+		Records: map[string][]FieldSpec{"SeqNumChain": {{"ChainSel", ""}}},
+		TypeMap: map[string]string{"commontypes.OracleID": "ord"}},
+
+	{File: "execute/plugin_functions.go", Func: "computeRanges", Name: "gen_compute_ranges",
+		Params: []string{"slice record:CommitData"}, Result: "res slice range",
+		Records: map[string][]FieldSpec{"CommitData": {{"SequenceNumberRange", ""}}}},
+
+	{File: "internal/plugincommon/transmitters.go", Func: "GetTransmissionSchedule", Name: "gen_schedule",
+		Params: []string{"func", "slice ord", "int"}, Result: "res record:TransmissionSchedule",
+		TypeMap: map[string]string{"ChainSupport": "oracle", "commontypes.OracleID": "ord", "time.Duration": "int",
+			"*ocr3types.TransmissionSchedule": "record:TransmissionSchedule", "ocr3types.TransmissionSchedule": "record:TransmissionSchedule"},
+		Oracles: map[string]OracleSpec{"ChainSupport.SupportsDestChain": {Name: "supports", Args: []string{"ord"}, Result: "res bool"}},
+		Records: map[string][]FieldSpec{"TransmissionSchedule": {{"Transmitters", "slice ord"}, {"TransmissionDelays", "slice int"}}}},
+
+	{File: "internal/libs/slicelib/bits.go", Func: "BoolsToBitFlags", Name: "gen_bools_to_bit_flags",
+		Params: []string{"slice bool"}, Result: "res big"},
+	{File: "internal/libs/slicelib/bits.go", Func: "BitFlagsToBools", Name: "gen_bit_flags_to_bools",
+		Params: []string{"big", "int"}, Result: "res slice bool"},
+
+	{File: "commit/chainfee/types.go", Func: "FromPackedFee", Name: "gen_from_packed",
+		Params: []string{"big"}, Result: "res record:ComponentsUSDPrices",
+		Records: map[string][]FieldSpec{"ComponentsUSDPrices": {{"ExecutionFeePriceUSD", ""}, {"DataAvFeePriceUSD", ""}}}},
+
+	{File: "pkg/reader/ccip.go", Func: "chainSelectorToBytes16", Name: "gen_chain_selector_to_bytes16",
+		Params: []string{"u64"}, Result: "bytes"},
+
+	{File: "internal/plugincommon/consensus/consensus.go", Func: "Median", Name: "gen_median",
+		Params: []string{"tparam", "slice tparam", "func"}, Result: "res tparam"},
 }
 
 type failure struct {
